@@ -28,7 +28,7 @@ impl Key {
     }
 }
 
-pub const BTREE_FIELDS: [&str; 5] = ["name", "age", "opt", "tags", "codes"];
+pub const BTREE_FIELDS: [&str; 6] = ["name", "age", "opt", "tags", "codes", "attrs"];
 
 /// Keys a document contributes to the single-field B-tree index `field`
 /// (null skipped, arrays expanded).
@@ -39,6 +39,7 @@ pub fn keys_of(doc: &VDoc, field: &str) -> Vec<Key> {
         "opt" => doc.opt.map(Key::U).into_iter().collect(),
         "tags" => doc.tags.iter().map(|t| Key::S(t.clone())).collect(),
         "codes" => doc.codes.iter().map(|t| Key::S(t.clone())).collect(),
+        "attrs" => doc.attrs.keys().map(|t| Key::S(t.clone())).collect(),
         _ => panic!("unknown btree field {field}"),
     }
 }
